@@ -27,6 +27,7 @@ from tensordict import TensorDict
 
 import vlib
 from vlib import Violation, coq_Q, coq_nat, coq_bool
+import c08_grad
 
 SINGLE_DISCRETE = ("DQN", "DDQN", "CQN", "CDQN")
 SINGLE_AC = ("DDPG", "TD3")
@@ -496,9 +497,21 @@ class C08(vlib.Driver):
                 rec = {"tables": tables(A, case, batch, seed_k)}
                 if k == 0:
                     rec["tables2"] = tables(A, case, batch2, seed_k)
+                pf_k = case["pf"] if algo in SINGLE_AC + ("MATD3",) else 1
+                updating = (obs["counter0"] + k + 1) % pf_k == 0
+                pre_nets = c08_grad.copies(A, algo, updating)
                 torch.manual_seed(seed_k)
                 rec["out"] = call_learn(A, case, batch)
                 post = snapshot(A, algo)
+                try:      # gradient left behind by learn() vs gradient of the defined loss on the pre-step copy
+                    cmpg = c08_grad.compare(c08_grad.reference_grads(A, case, batch, rec["tables"], pre_nets, AGENT_IDS),
+                                            c08_grad.impl_grads(A, algo, updating))
+                    rec["grad"] = [[n_, cos_, ratio_,
+                                    float(np.abs(post[n_][0] - prev[n_][0]).max()) if n_ in post and len(post[n_][0]) == len(prev[n_][0]) else None]
+                                   for n_, cos_, ratio_ in cmpg]
+                except Exception as e:      # the clause is an extra: never let it mask the main observations
+                    rec["grad"] = []
+                    rec["grad_error"] = f"{type(e).__name__}: {e}"
                 soft = []
                 for n in names:
                     on, tg, _ = post[n]
@@ -654,6 +667,26 @@ class C08(vlib.Driver):
                                             f"weights {rec['tables']['w']} delivered by the prioritised buffer broadcast against the (B,) losses "
                                             f"{elems} to a (B,B) matrix" if sig.endswith("broadcast") else "")))
                     break
+            # (1b) what learn() called backward() on is that loss: gradient direction (and size, where no clipping applies)
+            clipped = algo in ("CQN", "CDQN", "Rainbow")
+            for name, cos, ratio, moved in rec.get("grad", []):
+                if cos is None:
+                    continue            # different parameter list: not comparable
+                if ratio == 0.0:
+                    # no gradient left behind: fine if learn() clears gradients after stepping, but then the step must have
+                    # moved the network; a network with a non-zero loss gradient that did not move at all was not trained
+                    if moved == 0.0:
+                        out.append(Violation("minimised", f"minimised:{algo}",
+                                             f"learn call {k}: {name} received no gradient and its weights did not change although the "
+                                             f"gradient of the algorithm's loss with respect to it is not zero: this network is not trained"))
+                        break
+                    continue
+                if cos < 1 - 1e-3 or (ratio > 1 + 1e-2) or (not clipped and ratio < 1 - 1e-2):
+                    out.append(Violation("minimised", f"minimised:{algo}",
+                                         f"learn call {k}: the gradient learn() left in {name} is not the gradient of the algorithm's loss "
+                                         f"(cosine {cos:.6f}, norm ratio {ratio:.6f}{', gradient clipping allowed for' if clipped else ''}): "
+                                         f"learn() minimises something other than the loss it is defined by"))
+                    break
             # (2) every target network = tau * online + (1 - tau) * previous (at the calls that update, untouched otherwise)
             for s, p in zip(rec["soft"], obs["pairs"]):
                 kind = s["name"].split("[")[0]
@@ -760,6 +793,11 @@ class C08(vlib.Driver):
                             box = box or abs(a_ - (p_ + max(-NOISE_CLIP, min(NOISE_CLIP, n_)))) > 1e-6
             labs.append(f"live-row:noise-clip={'active' if clip else 'inactive'}")
             labs.append(f"live-row:box-clamp={'active' if box else 'inactive'}")
+        if obs.get("steps"):
+            ng = sum(1 for rec in obs["steps"] for g_ in rec.get("grad", []) if g_[1] is not None and g_[2] != 0.0)
+            labs.append("gradient-compared=" + ("yes" if ng else "no"))
+            if any(rec.get("grad_error") for rec in obs["steps"]):
+                labs.append("gradient-clause-error")
         if obs.get("steps"):
             _, upd = self.update_steps(case, obs)
             labs.append(f"updates={sum(upd)}of{len(upd)}")
